@@ -427,23 +427,33 @@ def gate_candidates(mod, build, cands, seed_base, tier):
             seen_cls.add(c["class"])
             if hasattr(mod, "pre_shrink"):
                 c["world"] = mod.pre_shrink(ctx, c["world"], plans, results, c["class"])
-            small, attempts = shrink(mod, ctx, c["world"], c["class"], budget=150 if tier == "quick" else 600)
-            plans, results, v = run_case(mod, ctx, small)
-            path = replay_path(mod.ID, seed_base, c["index"], c["class"])
-            rep = {"property": mod.ID, "seed_base": seed_base, "index": c["index"], "seed": c["world"].get("_seed"), "class": c["class"],
-                   "violations": v.violations[:8], "shrink_attempts": attempts, "world": small, "original_world": c["world"], "plans": plans,
-                   "result_hash": result_hash(results)}
-            with open(path, "w") as f:
-                json.dump(rep, f, indent=1, sort_keys=True)
+            # Minimise, write the replay file, replay it in a fresh process.  When the minimised world does not replay,
+            # the shrink was contaminated by what earlier attempts left behind in its executor process (a defect that
+            # leaks descriptors or keeps process-wide state makes a run depend on the runs before it): the shrink is
+            # then repeated from the confirmed world with a new executor process for every execution.
+            ok = False
+            for fresh in ([True] if getattr(ctx, "fresh_each", False) else [False, True]):
+                ctx.fresh_each = fresh
+                small, attempts = shrink(mod, ctx, c["world"], c["class"], budget=150 if tier == "quick" else 600)
+                plans, results, v = run_case(mod, ctx, small)
+                path = replay_path(mod.ID, seed_base, c["index"], c["class"])
+                rep = {"property": mod.ID, "seed_base": seed_base, "index": c["index"], "seed": c["world"].get("_seed"), "class": c["class"],
+                       "violations": v.violations[:8], "shrink_attempts": attempts, "world": small, "original_world": c["world"], "plans": plans,
+                       "result_hash": result_hash(results)}
+                with open(path, "w") as f:
+                    json.dump(rep, f, indent=1, sort_keys=True)
+                # fresh-process replay
+                p = subprocess.run([sys.executable, "-m", "lesim", "replay", path, "--build-dir", build.dir], cwd=SIM, capture_output=True, text=True,
+                                   env=dict(os.environ, PYTHONPATH=SIM, REPO=REPO))
+                if p.returncode == 1 and ("class=" + c["class"]) in p.stdout:
+                    ok = True
+                    break
+            if ok:
+                confirmed.append({"class": c["class"], "path": path, "index": c["index"], "violations": v.violations[:3]})
+            else:
+                nondet.append({"index": c["index"], "class": c["class"], "replay_rc": p.returncode, "replay_out": p.stdout[-500:] + p.stderr[-500:]})
         finally:
             ctx.close()
-        # fresh-process replay
-        p = subprocess.run([sys.executable, "-m", "lesim", "replay", path, "--build-dir", build.dir], cwd=SIM, capture_output=True, text=True,
-                           env=dict(os.environ, PYTHONPATH=SIM, REPO=REPO))
-        if p.returncode == 1 and ("class=" + c["class"]) in p.stdout:
-            confirmed.append({"class": c["class"], "path": path, "index": c["index"], "violations": v.violations[:3]})
-        else:
-            nondet.append({"index": c["index"], "class": c["class"], "replay_rc": p.returncode, "replay_out": p.stdout[-500:] + p.stderr[-500:]})
     return confirmed, nondet
 
 
